@@ -8,42 +8,81 @@ reports.  Every other way of calling must reproduce it:
 
   (B) every batch_size in 1 .. n*S+1 (smaller than / equal to / not dividing / larger than S), all examples
   (C) every ordered subset (subset x permutation) of the examples, with a random batch size
-  (O) output kinds: processed, hypothetical=True, raw_outputs=True; return_references on and off
+  (M) calls in which an example appears more than once (multisets such as [0, 0], [1, 0, 1], longer than
+      the example set): "whichever other examples are passed" includes copies of itself; in 'dup'
+      configurations two DIFFERENT examples carry the same sequence but their own rows of the extra
+      arguments / of the explicit reference tensor (a result cache keyed by the sequence would mix them up)
+  (O) output kinds: processed, hypothetical=True, raw_outputs=True, raw_outputs=True together with
+      hypothetical=True; return_references on and off
   (R) the returned references of example e are bit-identical in every call (integer random_state with
-      dinucleotide_shuffle / shuffle, or an explicit tensor, which must come back unchanged)
+      dinucleotide_shuffle / shuffle / a user-written reference function, or an explicit tensor, which
+      must come back unchanged - also when it is a stride-0 expanded view shared by all examples)
   (D) repeating the very same call returns bit-identical attributions and references
-  (X) extra args: row e of every extra argument travels with example e
+  (X) extra args (none, one or two; tuple or list): row e of every extra argument travels with example e
+  (H) call order / call histories: the identical call is made three times; between the calls the process
+      does something else that is legitimate - a call on ANOTHER model, or on the SAME model, that
+      overrides the rules of the built-in activations / max-pooling through additional_nonlinear_ops
+      (documented), then one that passes the library's own rules explicitly; a call that raises; a call
+      with random_state=None; re-seeding of the global numpy / torch / python generators; a call on other
+      examples with another batch size and output kind.  The three results must be bit-identical and
+      equal to the examples run alone.
 
-Comparison of attributions: bit-wise for the integer-valued "recording" model (affine, integer weights
-and integer extra args: every intermediate value is an exactly representable integer, so a mix-up of
-rows cannot hide behind rounding and no tolerance is needed); for the float64 nets of the C04 generator
-1e-10 relative to 1 + max|value| (the statement says "the same"; BLAS kernels chosen per batch shape may
-legitimately differ in the last bits, so bit-equality is not demanded there; observed difference: 0).
-With random_state=None nothing is claimed by the statement and nothing is checked.
+Input classes: the integer-valued "recording" model (float64 and float32), and the C04 generator:
+sequential nets with disjoint max-pooling, with overlapping / dilated MaxPool1d, with MaxPool2d, grouped
+into nested nn.Sequential containers, with activations outside the built-in table (registered through
+additional_nonlinear_ops in every call, as in C04), the hand-written non-sequential models (residual
+add, concatenated branches, activation on the input, MaxPool2d), float64 and float32; all in evaluation
+mode (the quantifier has no train-mode BatchNorm / Dropout models, nothing is asserted about them).
+n = 1..3 examples, n_shuffles 1..7, 1..3 model outputs, random_state = 0 (falsy) / python int / numpy
+integer, examples that are homopolymers / two-letter sequences / copies of one another.
+
+Comparison of attributions: bit-wise for the recording model (affine, integer weights and integer
+extra args: every intermediate value is an exactly representable integer - in float32 too, all values
+stay below 2^24 - so a mix-up of rows cannot hide behind rounding and no tolerance is needed); for the
+float64 nets 1e-10 relative to 1 + max|value| (the statement says "the same"; BLAS kernels chosen per
+batch shape may legitimately differ in the last bits, so bit-equality is not demanded there; observed
+difference: 6e-14), for float32 nets 1e-4 relative (observed: see the note of the run).  The
+identical call repeated is compared bit-wise for every model.
+With random_state=None nothing is claimed by the statement and nothing is checked.  That shuffle j is
+seeded with random_state + j is the mechanism, not the statement: the oracle only demands that shuffle
+j of an example is the same sequence in every batching.
 """
 import itertools
+import random as _pyrandom
 import warnings
 
+import numpy
 import torch
 
-from tangermeme.deep_lift_shap import deep_lift_shap
+from tangermeme.deep_lift_shap import deep_lift_shap, _nonlinear, _maxpool
 from tangermeme.ersatz import dinucleotide_shuffle, shuffle
 from tangermeme.utils import random_one_hot
 
-from bounded.C04 import gen_spec, build, nn
+from bounded.C04 import (gen_spec, gen_spec2d, nestify, build, init_weights, nn, DAGS, ACTS, EXTRA_NAMES,
+                         EXTRA_CLASSES, Square)
+
+torch.set_num_threads(1)
 
 SCOPE = {
-    'quick': '100 configurations: float64 nets of the C04 generator (depth 1-4, disjoint max-pooling) or the integer recording model, n in 2..3 examples, n_shuffles 1..4, references tensor (one-hot / real) or generated (dinucleotide_shuffle / shuffle with integer random_state), with and without two extra args, random target; per configuration: every batch_size 1..n*S+1 x {processed, hypothetical, raw}, every ordered subset of the examples (15 for n=3) with random batch size / output kind / return_references, repeat-call determinism',
-    'thorough': '500 configurations, n in 2..4 (all 64 ordered subsets for n=4), otherwise as quick',
+    'quick': '36 call histories (H: identical call x3 with, in between, rule overrides through additional_nonlinear_ops on another / the same model, a raising call, an unseeded call, re-seeded global generators, another call on the same model) + 100 configurations: integer recording model (float64 / float32) or nets of the C04 generator (disjoint, overlapping / dilated MaxPool1d, MaxPool2d, nested containers, activations registered through additional_nonlinear_ops, 4 non-sequential models; float64 / float32; evaluation mode), n in 1..3 examples (incl. homopolymer / two-letter examples and two examples with the same sequence but different args / references), n_shuffles 1..7, 1..3 outputs, references tensor (one-hot / real / one expanded stride-0 tensor shared by all examples) or generated (dinucleotide_shuffle / shuffle / a user-written function, random_state 0 / int / numpy.int64), 0 / 1 / 2 extra args (tuple or list); per configuration: every batch_size 1..n*S+1 x {processed, hypothetical, raw} (+ raw with hypothetical=True for a third of the batch sizes), every ordered subset of the examples (15 for n=3) and 3 multisets with repeated examples, with random batch size / output kind / return_references, repeat-call determinism',
+    'thorough': '200 call histories, 500 configurations, n in 1..4 (all 64 ordered subsets for n=4), 5 multisets, otherwise as quick',
 }
 
-MODES = {'processed': {}, 'hyp': {'hypothetical': True}, 'raw': {'raw_outputs': True}}
-REL = 1e-10
+MODES = {'processed': {}, 'hyp': {'hypothetical': True}, 'raw': {'raw_outputs': True},
+         'rawhyp': {'raw_outputs': True, 'hypothetical': True}}
+MODES3 = ('processed', 'hyp', 'raw')
+REL = {'f64': 1e-10, 'f32': 1e-4}
+DTYPES = {'f64': torch.float64, 'f32': torch.float32}
+NET_VARIANTS = ['disjoint', 'disjoint', 'disjoint', 'disjoint', 'overlap', 'overlap', 'pool2d', 'nested', 'extra', 'dag']
+DAG_NAMES = ['res', 'branch', 'inputact', 'pool2d']
+PRE_KINDS = ['override-other', 'override-same', 'raise', 'noseed', 'reseed', 'other-call']
+# every class of the built-in table that the C04 generator can produce
+TABLE_CLASSES = tuple(sorted({type(f(0)) for f in ACTS.values()}, key=lambda c: c.__name__)) + (nn.MaxPool1d, nn.MaxPool2d)
 
 
 class ArgNet(nn.Module):
-    """core(X scaled per example and channel by a) scaled per example by b: two extra arguments that
-    both change the attributions of their own example"""
+    """core(X scaled per example and channel by a) scaled per example by b: extra arguments that
+    change the attributions of their own example"""
     def __init__(self, core):
         super().__init__()
         self.core = core
@@ -51,61 +90,127 @@ class ArgNet(nn.Module):
     def forward(self, X, a=None, b=None):
         if a is None:
             return self.core(X)
-        return self.core(X * a[:, :, None]) * b
+        y = self.core(X * a[:, :, None])
+        return y if b is None else y * b
+
+
+def rolled(X, n=1, random_state=None, **kwargs):
+    """a user-written reference function (signature of the ersatz ones): reference k of a sequence is
+    the sequence rotated along the length and along the alphabet by amounts derived from random_state + k.
+    Depends on nothing but the row and the seed."""
+    rs = 0 if random_state is None else int(random_state)
+    A, L = X.shape[1], X.shape[2]
+    return torch.stack([torch.roll(torch.roll(X, (3 * (rs + k) + 1) % L, dims=2), (rs + k) % A, dims=1) for k in range(n)], dim=1)
+
+
+def _passthrough(module, grad_input, grad_output):
+    """a (deliberately non-DeepLIFT) user rule: the plain gradient"""
+    return (grad_input[0],)
+
+
+def _own_rescale(module, grad_input, grad_output):
+    """a user-written rescale rule (signature of _nonlinear)"""
+    xi, ri = module.input.chunk(2)
+    xo, ro = module.output.chunk(2)
+    d_in = xi - ri
+    tiny = d_in.abs() < 1e-6
+    ratio = (xo - ro) / torch.where(tiny, torch.ones_like(d_in), d_in)
+    return (torch.where(torch.cat([tiny, tiny]), grad_input[0], grad_output[0] * torch.cat([ratio, ratio])),)
 
 
 def make_model(case):
+    dt = DTYPES[case.get('dtype', 'f64')]
     if case['model'] == 'record':
-        A, L = case['A'], case['L']
-        core = nn.Sequential(nn.Flatten(), nn.Linear(A * L, 2)).double().eval()
+        A, L, nt = case['A'], case['L'], case.get('nt', 2)
+        core = nn.Sequential(nn.Flatten(), nn.Linear(A * L, nt)).double().eval()
         g = torch.Generator().manual_seed(case['wseed'])
-        core[1].weight.data = torch.randint(-9, 10, (2, A * L), generator=g).double()
-        core[1].bias.data = torch.randint(-9, 10, (2,), generator=g).double()
+        core[1].weight.data = torch.randint(-9, 10, (nt, A * L), generator=g).double()
+        core[1].bias.data = torch.randint(-9, 10, (nt,), generator=g).double()
+    elif case.get('dag'):
+        core = init_weights(DAGS[case['dag']](case['A'], case['L']), case['wseed'], case['gain'])
     else:
         core = build(case['spec'], case['wseed'], case['gain'])
-    return ArgNet(core).eval()
+    return ArgNet(core).to(dt).eval()
+
+
+def extra_ops(model):
+    """activations outside the built-in table are registered in every call, as in C04"""
+    return {type(m): (_own_rescale if isinstance(m, (Square, nn.Softsign)) else _nonlinear) for m in model.modules() if isinstance(m, EXTRA_CLASSES)}
 
 
 def make_inputs(case):
     n, S, A, L = case['n'], case['S'], case['A'], case['L']
+    dt = DTYPES[case.get('dtype', 'f64')]
     X = random_one_hot((n, A, L), random_state=case['xseed']).double()
     g = torch.Generator().manual_seed(case['xseed'] + 1)
+    xk = case.get('Xkind', 'random')
+    if xk == 'dup' and n > 1:            # two different examples with the same sequence
+        X[1] = X[0]
+    elif xk == 'homo':                   # a homopolymer: every shuffle of it is the sequence itself
+        X[0] = 0
+        X[0, case['xseed'] % A] = 1
+    elif xk == 'low':                    # a two-letter sequence
+        ch = torch.randint(0, 2, (L,), generator=g)
+        X[n - 1] = 0
+        X[n - 1, ch, torch.arange(L)] = 1
+    rs = case.get('rs', 0)
+    if case.get('rs_np'):
+        rs = numpy.int64(rs)
     if case['refs'] == 'onehot':
         refs, kw = random_one_hot((n * S, A, L), random_state=case['xseed'] + 1).double().reshape(n, S, A, L), {}
+    elif case['refs'] == 'shared':       # the usual "one background set for everything": a stride-0 expanded view
+        refs, kw = random_one_hot((S, A, L), random_state=case['xseed'] + 1).double()[None], {}
     elif case['refs'] == 'real':
         refs, kw = torch.rand(n, S, A, L, generator=g, dtype=torch.float64), {}
         if case['model'] == 'record':
             refs = torch.round(refs * 4)          # keep everything integer-valued
     elif case['refs'] == 'dinuc':
-        refs, kw = dinucleotide_shuffle, {'n_shuffles': S, 'random_state': case['rs']}
+        refs, kw = dinucleotide_shuffle, {'n_shuffles': S, 'random_state': rs}
+    elif case['refs'] == 'custom':
+        refs, kw = rolled, {'n_shuffles': S, 'random_state': rs}
     else:
-        refs, kw = shuffle, {'n_shuffles': S, 'random_state': case['rs']}
+        refs, kw = shuffle, {'n_shuffles': S, 'random_state': rs}
+    if isinstance(refs, torch.Tensor):
+        refs = refs.to(dt)
+        if case['refs'] == 'shared':
+            refs = refs.expand(n, S, A, L)
+    nargs = case.get('nargs', 2 if case.get('args') else 0)
     args = None
-    if case['args']:
+    if nargs:
         if case['model'] == 'record':
             args = (torch.randint(1, 6, (n, A), generator=g).double(), torch.randint(1, 4, (n, 1), generator=g).double())
         else:
             args = (torch.rand(n, A, generator=g, dtype=torch.float64) * 1.5 + 0.5, torch.rand(n, 1, generator=g, dtype=torch.float64) * 3 - 1.5)
-    return X, refs, kw, args
+        args = tuple(a.to(dt) for a in args[:nargs])
+    return X.to(dt), refs, kw, args
 
 
-def _call(model, X, refs, kw, args, idx, case, mode, batch_size, rr):
+def _call(model, X, refs, kw, args, idx, case, mode, batch_size, rr, **over):
     idx = list(idx)
     r = refs[idx] if isinstance(refs, torch.Tensor) else refs
     a = None if args is None else tuple(x[idx] for x in args)
+    if a is not None and case.get('args_list'):
+        a = list(a)
+    kw = dict(kw)
+    xops = extra_ops(model)
+    if xops:
+        kw['additional_nonlinear_ops'] = xops
+    kw.update(MODES[mode])
+    kw.update(target=case['target'], batch_size=batch_size, return_references=rr)
+    kw.update(over)
     with warnings.catch_warnings():
         warnings.simplefilter('ignore')
-        out = deep_lift_shap(model, X[idx], args=a, target=case['target'], batch_size=batch_size, references=r,
-                             return_references=rr, device='cpu', **kw, **MODES[mode])
-    return out if rr else (out, None)
+        out = deep_lift_shap(model, X[idx], args=a, references=r, device='cpu', **kw)
+    return out if kw['return_references'] else (out, None)
 
 
 _BASE = {}
+_NOT_CFG = ('idx', 'batch_size', 'rr', 'mode', 'repeat', 'kind', 'pre')
 
 
 def baseline(case, model, X, refs, kw, args, e, mode):
     """example e alone, one batch of exactly its S pairs"""
-    key = (repr(sorted((k, repr(v)) for k, v in case.items() if k not in ('idx', 'batch_size', 'rr', 'mode', 'repeat'))), e, mode)
+    key = (repr(sorted((k, repr(v)) for k, v in case.items() if k not in _NOT_CFG)), e, mode)
     if key not in _BASE:
         if len(_BASE) > 4000:
             _BASE.clear()
@@ -113,17 +218,20 @@ def baseline(case, model, X, refs, kw, args, e, mode):
     return _BASE[key]
 
 
-def check_indep(case, info=None):
+def check_indep(case, info=None, _built=None):
     out = []
-    model = make_model(case)
-    X, refs, kw, args = make_inputs(case)
+    model = make_model(case) if _built is None else _built[0]
+    X, refs, kw, args = make_inputs(case) if _built is None else _built[1]
     idx, mode, S = case['idx'], case['mode'], case['S']
     exact = case['model'] == 'record'
+    rel = REL[case.get('dtype', 'f64')]
     try:
         got, got_refs = _call(model, X, refs, kw, args, idx, case, mode, case['batch_size'], case['rr'])
     except Exception as e:
         return ['deep_lift_shap raised %s: %s' % (type(e).__name__, str(e)[:100])]
-    shape = (len(idx), S) + tuple(X.shape[1:]) if mode == 'raw' else (len(idx),) + tuple(X.shape[1:])
+    if not isinstance(got, torch.Tensor):
+        return ['return_references=%s returned %s where a tensor is expected' % (case['rr'], type(got).__name__)]
+    shape = (len(idx), S) + tuple(X.shape[1:]) if MODES[mode].get('raw_outputs') else (len(idx),) + tuple(X.shape[1:])
     if tuple(got.shape) != shape:
         return ['output shape %s, expected %s' % (tuple(got.shape), shape)]
     if case['rr'] and tuple(got_refs.shape) != (len(idx), S) + tuple(X.shape[1:]):
@@ -136,14 +244,14 @@ def check_indep(case, info=None):
             return ['deep_lift_shap raised %s on the single example %d: %s' % (type(ex).__name__, e, str(ex)[:80])]
         d = float((got[i] - b_attr[0]).abs().max())
         worst = max(worst, d)
-        bad = (not torch.equal(got[i], b_attr[0])) if exact else (d > REL * (1 + float(b_attr[0].abs().max())))
+        bad = (not torch.equal(got[i], b_attr[0])) if exact else not (d <= rel * (1 + float(b_attr[0].abs().max())))
         if bad:
             out.append('attribution of an example depends on batch_size / co-batched examples / order: output row %d (example %d) differs from the example run alone by %.3g' % (i, e, d))
         if case['rr']:
             if not torch.equal(got_refs[i], b_refs[0]):
                 out.append('references of an example depend on batch_size / co-batched examples / order: output row %d (example %d), %d of %d shuffles differ'
                            % (i, e, int((got_refs[i] != b_refs[0]).flatten(1).any(dim=1).sum()), S))
-            if isinstance(refs, torch.Tensor) and not torch.equal(got_refs[i].double(), refs[e]):
+            if isinstance(refs, torch.Tensor) and not torch.equal(got_refs[i].double(), refs[e].double()):
                 out.append('returned references are not the explicit reference tensor that was passed in (row %d, example %d)' % (i, e))
     if case.get('repeat'):
         again, again_refs = _call(model, X, refs, kw, args, idx, case, mode, case['batch_size'], case['rr'])
@@ -155,51 +263,172 @@ def check_indep(case, info=None):
 
 
 # ---------------------------------------------------------------------------------------------
+# (H) call histories
 
-def _config(rng, k, nmax):
+def _other_model(A, L):
+    return init_weights(nn.Sequential(nn.Conv1d(A, 2, 3, padding=1), nn.ReLU(), nn.MaxPool1d(2), nn.Tanh(), nn.Flatten(),
+                                      nn.Linear(2 * (L // 2), 1)), 1, 1.0)
+
+
+def _between(case, model, X, refs, kw, args, step):
+    """what the process does between two identical calls.  step 0: the disturbance; step 1: for the rule
+    overrides, a second legitimate call that passes the library's own rules explicitly"""
+    pre, A, L = case['pre'], case['A'], case['L']
+    dt = X.dtype
+    idx = case['idx']
+    with warnings.catch_warnings():
+        warnings.simplefilter('ignore')
+        if pre in ('override-other', 'override-same'):
+            rule = _passthrough if step == 0 else None
+            ops = {c: (rule or (_maxpool if c in (nn.MaxPool1d, nn.MaxPool2d) else _nonlinear)) for c in TABLE_CLASSES}
+            if pre == 'override-other':
+                deep_lift_shap(_other_model(A, L), X[:1].double(), references=torch.zeros(1, 1, A, L, dtype=torch.float64), device='cpu',
+                               additional_nonlinear_ops=ops)
+            else:
+                ops.update({c: r for c, r in extra_ops(model).items() if step == 1})
+                _call(model, X, refs, kw, args, idx, case, 'processed', 2, False, additional_nonlinear_ops=ops)
+        elif pre == 'raise':
+            if step == 0:
+                try:
+                    _call(model, X, refs, kw, args, idx, case, 'processed', 2, False, target=10 ** 6)
+                except Exception:
+                    pass
+        elif pre == 'noseed':
+            if not isinstance(refs, torch.Tensor):
+                _call(model, X, refs, kw, args, idx, case, case['mode'], case['batch_size'], True, random_state=None)
+            numpy.random.rand(3 + step)
+        elif pre == 'reseed':
+            numpy.random.seed(1234 + step)
+            torch.manual_seed(99 + step)
+            _pyrandom.seed(7 + step)
+        elif pre == 'other-call':
+            sub = idx[::-1][:max(1, len(idx) - 1)]
+            _call(model, X, refs, kw, args, sub, case, ('raw', 'hyp')[step], 1 + step, bool(step))
+        else:
+            raise ValueError(pre)
+
+
+def check_history(case, info=None):
+    model = make_model(case)
+    built = (model, make_inputs(case))
+    X, refs, kw, args = built[1]
+    a = (case['idx'], case, case['mode'], case['batch_size'], True)
+    out = []
+    try:
+        r = [_call(model, X, refs, kw, args, *a)]
+        for step in (0, 1):
+            _between(case, model, X, refs, kw, args, step)
+            r.append(_call(model, X, refs, kw, args, *a))
+    except Exception as e:
+        return ['deep_lift_shap raised %s in a call history (%s): %s' % (type(e).__name__, case['pre'], str(e)[:100])]
+    for j in (1, 2):
+        if not torch.equal(r[j][0], r[0][0]):
+            out.append('call history (%s): the identical call gave different attributions after %d intervening call(s), largest difference %.3g'
+                       % (case['pre'], j, float((r[j][0] - r[0][0]).abs().max())))
+        if not torch.equal(r[j][1], r[0][1]):
+            out.append('call history (%s): the identical call used different references after %d intervening call(s)' % (case['pre'], j))
+    return out + check_indep(case, info, _built=built)
+
+
+# ---------------------------------------------------------------------------------------------
+
+def _config(rng, k, nmax, net_only=False):
     A = rng.choice([4, 4, 3, 5])
     L = rng.randint(6, 12)
-    n, S = rng.randint(2, nmax), rng.randint(1, 4)
-    nt = 2
-    cfg = {'kind': 'indep', 'model': 'record' if k % 4 == 0 else 'net', 'A': A, 'L': L, 'n': n, 'S': S, 'target': rng.randrange(nt),
+    n = 1 if rng.random() < 0.08 else rng.randint(2, nmax)
+    S = rng.randint(1, 4)
+    if rng.random() < 0.1:
+        n, S = min(n, 2), rng.randint(5, 7)
+    nt = rng.choice([1, 2, 2, 3])
+    model = 'net' if net_only or k % 4 else 'record'
+    cfg = {'kind': 'indep', 'model': model, 'A': A, 'L': L, 'n': n, 'S': S, 'nt': nt,
            'wseed': rng.randrange(10 ** 6), 'gain': rng.choice([0.7, 1.5, 3.0]), 'xseed': rng.randrange(10 ** 6),
-           'refs': rng.choice(['onehot', 'real', 'dinuc', 'dinuc', 'shuffle']), 'rs': rng.randrange(1000), 'args': rng.random() < 0.5}
-    if cfg['model'] == 'net':
-        cfg['spec'] = gen_spec(rng, A, L, rng.randint(1, 4), nt, maxpool='disjoint')
+           'refs': rng.choice(['onehot', 'real', 'shared', 'dinuc', 'dinuc', 'shuffle', 'custom']),
+           'rs': 0 if rng.random() < 0.15 else rng.randrange(1000), 'rs_np': rng.random() < 0.15,
+           'nargs': rng.choice([0, 0, 1, 2, 2]), 'args_list': rng.random() < 0.3,
+           'dtype': 'f32' if rng.random() < (0.4 if model == 'record' else 0.2) else 'f64',
+           'Xkind': rng.choice(['random'] * 6 + ['dup', 'dup', 'homo', 'low'])}
+    if model == 'net':
+        v = cfg['variant'] = rng.choice(NET_VARIANTS)
+        if v == 'dag':
+            cfg['dag'], cfg['nt'] = rng.choice(DAG_NAMES), 2
+        elif v == 'pool2d':
+            cfg['spec'] = gen_spec2d(rng, A, L, nt)
+        elif v == 'overlap':
+            cfg['spec'] = gen_spec(rng, A, L, rng.randint(2, 3), nt, maxpool='overlap', p_max=0.7)
+        elif v == 'extra':
+            cfg['spec'] = gen_spec(rng, A, L, rng.randint(2, 4), nt, maxpool='disjoint', acts=EXTRA_NAMES + ['ReLU', 'Tanh'])
+        elif v == 'nested':
+            cfg['spec'] = nestify(rng, gen_spec(rng, A, L, rng.randint(2, 4), nt, maxpool='disjoint'))
+        else:
+            cfg['spec'] = gen_spec(rng, A, L, rng.randint(1, 4), nt, maxpool='disjoint')
+    cfg['target'] = rng.randrange(cfg['nt'])
     return cfg
+
+
+SAMPLE_KEYS = ('model', 'variant', 'dtype', 'n', 'S', 'refs', 'nargs', 'Xkind', 'pre', 'mode', 'idx', 'batch_size', 'rr')
+
+
+def _finding(what):
+    if what.startswith('call history'):
+        return 'call-history-dependent'
+    if what.startswith(('references', 'returned references')):
+        return 'references-depend-on-batching'
+    if what.startswith('repeating'):
+        return 'nondeterministic-repeat'
+    return 'attribution-depends-on-batching'
 
 
 def _eval(rep, case, key, section, stats, sample=False):
     info = {}
     try:
-        res = check_indep(case, info)
+        res = check_history(case, info) if case['kind'] == 'history' else check_indep(case, info)
     except Exception as e:
         rep.note('harness error on %s: %s %s' % (key, type(e).__name__, str(e)[:100]))
         return
-    rep.case(key, section=section, sample={k: case[k] for k in ('model', 'n', 'S', 'refs', 'args', 'mode', 'idx', 'batch_size', 'rr')} if sample else None)
+    rep.case(key, section=section, sample={k: case[k] for k in SAMPLE_KEYS if k in case} if sample else None)
     if case['model'] == 'net':
-        stats['worst'] = max(stats['worst'], info.get('worst', 0.0))
+        w = 'worst32' if case.get('dtype') == 'f32' else 'worst'
+        stats[w] = max(stats[w], info.get('worst', 0.0))
+    stats['classes'][section + ':' + case.get('variant', case['model']) + ':' + case.get('dtype', 'f64')] = 1
     for what in res:
-        finding = 'references-depend-on-batching' if what.startswith(('references', 'returned references')) else \
-                  ('nondeterministic-repeat' if what.startswith('repeating') else 'attribution-depends-on-batching')
-        rep.violation(what, case, finding=finding)
+        rep.violation(what, case, finding=_finding(what))
 
 
 def run(rep):
     thorough = rep.tier == 'thorough'
     rng = rep.rng
-    stats = {'worst': 0.0}
+    stats = {'worst': 0.0, 'worst32': 0.0, 'classes': {}}
+    nmax = 4 if thorough else 3
+    # (H) call histories first: cheap, and the only section about shared state between calls
+    n_hist = 200 if thorough else 36
+    for k in range(n_hist):
+        if rep.left() < (300 if thorough else 30):
+            rep.note('history section cut at %d of %d' % (k, n_hist))
+            break
+        cfg = _config(rng, k, 3, net_only=True)
+        n, S = cfg['n'], cfg['S']
+        case = dict(cfg, kind='history', pre=PRE_KINDS[k % len(PRE_KINDS)], idx=list(range(n)), batch_size=rng.randint(1, n * S + 1),
+                    mode=rng.choice(list(MODES)), rr=True, repeat=False)
+        _eval(rep, case, ('H', k), 'call-history', stats, sample=k < 2)
     n_cfg = 500 if thorough else 100
     done = 0
     for k in range(n_cfg):
         if rep.out_of_time():
             rep.note('cut at configuration %d of %d (time budget)' % (k, n_cfg))
             break
-        cfg = _config(rng, k, 4 if thorough else 3)
+        cfg = _config(rng, k, nmax)
         n, S = cfg['n'], cfg['S']
+        # (M) repeated examples: cheap, first
+        multis = [[rng.randrange(n)] * 2, [rng.randrange(n) for _ in range(n + rng.randint(1, 2))], list(range(n)) + [rng.randrange(n)]]
+        if thorough:
+            multis += [[rng.randrange(n) for _ in range(rng.randint(2, n + 3))] for _ in range(2)]
+        for j, idx in enumerate(multis):
+            case = dict(cfg, idx=idx, batch_size=rng.randint(1, len(idx) * S + 1), mode=rng.choice(list(MODES)), rr=rng.random() < 0.5, repeat=(j == 0))
+            _eval(rep, case, ('M', k, j), 'repeated-examples', stats, sample=(k == 0 and j == 1))
         # (B) every batch size x every output kind, all examples in order
         for b in range(1, n * S + 2):
-            for mode in MODES:
+            for mode in MODES3 + (('rawhyp',) if b % 3 == k % 3 else ()):
                 case = dict(cfg, idx=list(range(n)), batch_size=b, mode=mode, rr=bool((b + len(mode)) % 2), repeat=(b == 2))
                 _eval(rep, case, ('B', k, b, mode), 'batch-size', stats, sample=(k == 0 and b == 1 and mode == 'processed'))
         # (C) every ordered subset
@@ -209,11 +438,14 @@ def run(rep):
                 _eval(rep, case, ('C', k, idx), 'subset-permutation', stats, sample=(k == 0 and idx in ((0,), (1,))))
         done += 1
     rep.mark_exhaustive('per configuration: all batch sizes 1..n*S+1 x 3 output kinds; all ordered subsets of the examples (%d configurations)' % done)
-    rep.note('float64 nets: largest absolute difference between any batching and the example run alone: %.3g' % stats['worst'])
+    rep.note('float64 nets: largest absolute difference between any batching and the example run alone: %.3g; float32 nets: %.3g' % (stats['worst'], stats['worst32']))
+    rep.note('input classes reached (section:model:dtype): ' + ' '.join(sorted(stats['classes'])))
 
 
 def replay(case):
+    _BASE.clear()
     if case.get('kind') == 'indep':
-        _BASE.clear()
         return check_indep(case)
+    if case.get('kind') == 'history':
+        return check_history(case)
     return ['unknown replay kind']
